@@ -161,6 +161,8 @@ def model_body_len(f):
         if len(f.origin) > 0xFFFF:
             raise struct.error("ushort format requires 0 <= number <= 65535")
         return 2 + len(f.origin) + len(f.field)
+    if t is hf.ExtensionFrame:
+        return len(f.body)
     raise HarnessError("no serialize model for %s" % t.__name__)
 
 
